@@ -780,4 +780,22 @@ def ctorCall (log : Option (List Str)) : Except Err LogState :=
 def flattenCall (st : LogState) (style : Option Str) (a b : Option Int) : Except Err Table :=
   flattenTables (style.getD Gen.Log.flattenStyleDefault.toList) (pySlice (st.sims.map (·.thermo)) a b)
 
+/-! ### the input forms (what `uber_open_rmode` makes of them is an ASSUMPTION: text / bytes / the name of a file -> a
+    fresh binary stream over the content; an open binary stream is passed through as it stands; a stream opened in text
+    mode is refused with ValueError) -/
+
+/-- how the log is handed over -/
+inductive Input
+  | text (t : Str)
+  | file (content : Str)
+  | stream (s : Stream)
+  | textStream
+
+/-- `log.read(x, append)` for each input form; the stream (if any) as the call leaves it -/
+def readInput (st : LogState) (append : Option Bool) : Input → Except Err (LogState × Option Stream)
+  | .text t => (readCall st append (splitLines t)).map (fun st' => (st', none))
+  | .file t => (readCall st append (splitLines t)).map (fun st' => (st', none))
+  | .stream s => (readLogS st (append.getD Gen.Log.readAppendDefault) s).map (fun r => (r.1, some r.2))
+  | .textStream => .error .value
+
 end Atomman.C19
